@@ -309,7 +309,7 @@ R("multicast_factory_mapper", 1, lambda c: {"f": c.fn("ident")},
 R("publish_value_mapper", 1, lambda c: {"v": vt.gen_value(c.rng, 0.5), "f": c.fn("ident")},
   lambda w, n, a, i: i[0].pipe(ops.publish_value(V(a["v"]), F(w, n, a, "f"))), {"multicast", "cb"})
 
-R("multicast_subject_ref_count", 1, lambda c: {}, lambda w, n, a, i: i[0].pipe(ops.multicast(rx.subject.Subject()), ops.ref_count()), {"multicast"})
+R("multicast_subject_ref_count", 1, lambda c: {}, lambda w, n, a, i: i[0].pipe(ops.multicast(rx.subject.Subject()), ops.ref_count()), {"multicast", "explicit_subject"})
 R("to_marbles", 1, lambda c: {"d": c.rng.choice([10, 20, 50])}, lambda w, n, a, i: i[0].pipe(ops.map(lambda x: vt.h(x) % 10), ops.to_marbles(a["d"], w.s)), {"time"})
 
 # scheduler hopping / resources
